@@ -106,6 +106,8 @@ type RunInfo struct {
 	Outcome    string
 	Decisions  []uint64 // decisions actually drawn (first simulated phase)
 	Sample     any
+	Evals      int      // executions performed by this scenario (0 = 1)
+	MoreHashes []uint64 // additional distinct non-trivial cases (e.g. one per crash point)
 }
 
 func newInfo() *RunInfo {
@@ -454,7 +456,14 @@ func Main(t *testing.T) {
 		sc := genScenario(p, base, tier, idx)
 		info, _ := runOne(t, p, sc, diskRoot, n, false)
 		n++
-		out.Evaluations++
+		if info.Evals > 0 {
+			out.Evaluations += info.Evals
+		} else {
+			out.Evaluations++
+		}
+		for _, h := range info.MoreHashes {
+			nontriv[h] = true
+		}
 		if selftest > 0 {
 			out.RunHashes = append(out.RunHashes, fmt.Sprintf("%016x/%016x/%s", info.CaseHash, info.StateHash, verdictStr(info.V)))
 		}
